@@ -183,6 +183,8 @@ def _summarize(c, rep):
             vcs += 1
             v = smt.discharge(pc, goal, want_smt2=(len(samples) < 1), all_backends=all_backends)
             solver_time += v.time
+            if os.environ.get('PYVC_TIME_DISCHARGE') and v.time > 1.0:
+                print('DISCHARGE %6.1fs %-8s %-28s %s' % (v.time, v.status, v.backend, name), file=sys.stderr, flush=True)
             by_backend[v.backend] = by_backend.get(v.backend, 0) + 1
             if v.smt2 and len(samples) < 1 and v.status == 'unsat' and v.backend != 'path-evaluation':
                 samples.append({'obligation': name, 'verdict': 'unsat', 'backend': v.backend,
@@ -242,7 +244,9 @@ def _lost_obligations(qname, have, why):
     on the pinned tree and is not re-established now is reported as no longer proved (DESIGN 2.9: a violation
     without failing input).  On unchanged sources the same failure stays a checker problem (exit 2 / 3)."""
     from . import verify as _v
-    base = (_BASELINE.get('__functions__') or {}).get(qname)
+    fns = _BASELINE.get('__functions__') or {}
+    base = fns.get(qname) or fns.get(qname.split('#')[0]) or \
+        next((v for k, v in fns.items() if k.split('#')[0] == qname.split('#')[0]), None)
     if not base:
         return []
     changed = sorted((q or qname) for q, sha in base.items()
@@ -359,6 +363,7 @@ def main(argv=None):
                     help='record the discharged obligations of the unchanged tree in baseline/<prop>.json')
     args = ap.parse_args(argv)
     _TIER = args.tier if args.tier in ('quick', 'thorough') else 'quick'
+    os.environ['VERIF_TIER'] = _TIER        # visible to sidecar modules (tier-dependent bounds / proofs) and sub-processes
     seed = int(os.environ.get('VERIF_SEED', '0') or 0)
     t0 = time.time()
     prop = args.prop
